@@ -416,3 +416,175 @@ func VerifC01_Iterate() {
 		vrt.Assert(err == nil && l == len(kids), "C01.len")
 	}
 }
+
+func init() {
+	vrt.Register("VerifC01_GetMany", VerifC01_GetMany)
+	vrt.Register("VerifC01_Foreach", VerifC01_Foreach)
+}
+
+// VerifC01_GetMany: the batch lookups (GetMany -> Fields / Indexes / Gets) on a container of KIND with CNT
+// children (values symbolic): every requested child that exists is returned exactly (same span as the
+// reference decoder's element), requested children that do not exist are left unset - also when the
+// PathNode slice is reused and still holds results of a previous call (ClearDirtyValues).
+func VerifC01_GetMany() {
+	kind := vrt.Param("KIND") // 0 struct, 1 list<i32>, 2 map<string,i32>, 3 map<i32,i32>
+	cnt := vrt.Param("CNT")
+	opts := &Options{ClearDirtyValues: true}
+	var b []byte
+	var t byte
+	switch kind {
+	case 0:
+		t = vrt.TSTRUCT
+		for i := 0; i < cnt; i++ {
+			b = vrt.PutBE32(vrt.PutField(b, vrt.TI32, 1+2*i), int(int32(vrt.U32())))
+		}
+		b = append(b, 0)
+	case 1:
+		t = vrt.TLIST
+		b = vrt.PutListHdr(b, vrt.TI32, cnt)
+		for i := 0; i < cnt; i++ {
+			b = vrt.PutBE32(b, int(int32(vrt.U32())))
+		}
+	case 2:
+		t = vrt.TMAP
+		b = vrt.PutMapHdr(b, vrt.TSTRING, vrt.TI32, cnt)
+		for i := 0; i < cnt; i++ {
+			b = vrt.PutBE32(vrt.PutString(b, []byte{'k', byte('0' + i)}), int(int32(vrt.U32())))
+		}
+	case 3:
+		t = vrt.TMAP
+		b = vrt.PutMapHdr(b, vrt.TI32, vrt.TI32, cnt)
+		for i := 0; i < cnt; i++ {
+			b = vrt.PutBE32(vrt.PutBE32(b, 10+i), int(int32(vrt.U32())))
+		}
+	}
+	kids, ok := vrt.TChildren(b, t, 3)
+	vrt.Assume(ok && len(kids) == cnt)
+	var node Node
+	switch kind {
+	case 0:
+		node = NewNode(thrift.STRUCT, b)
+	case 1:
+		node = NewNode(thrift.LIST, b)
+	default:
+		node = NewNode(thrift.MAP, b)
+	}
+	path := func(i int) Path {
+		switch kind {
+		case 0:
+			return NewPathFieldId(thrift.FieldID(1 + 2*i))
+		case 1:
+			return NewPathIndex(i)
+		case 2:
+			return NewPathStrKey(string([]byte{'k', byte('0' + i)}))
+		}
+		return NewPathIntKey(10 + i)
+	}
+	// request: the last child, an absent one, the first child - in this order (not the stored order)
+	stale := NewNodeString("stale")
+	req := []PathNode{{Path: path(cnt - 1), Node: stale}, {Path: path(cnt + 3), Node: stale}, {Path: path(0), Node: stale}}
+	if cnt == 1 {
+		req = req[1:]
+	}
+	if cnt == 0 {
+		req = req[1:2]
+	}
+	var err error
+	if vrt.Param("VIA") == 0 {
+		err = node.GetMany(req, opts)
+	} else {
+		// the per-kind batch calls are public API too
+		switch kind {
+		case 0:
+			err = node.Fields(req, opts)
+		case 1:
+			err = node.Indexes(req, opts)
+		default:
+			err = node.Gets(req, opts)
+		}
+	}
+	vrt.Assert(err == nil, "C01.getmany.noerror")
+	if err != nil {
+		return
+	}
+	vrt.Reach("done")
+	for i := range req {
+		switch {
+		case cnt >= 2 && i == 0:
+			verifFound(req[i].Node, b, kids[cnt-1], "C01.getmany.last")
+		case (cnt >= 2 && i == 2) || (cnt == 1 && i == 1):
+			verifFound(req[i].Node, b, kids[0], "C01.getmany.first")
+		default:
+			vrt.Assert(req[i].Node.IsEmpty() || req[i].Node.IsError(), "C01.getmany.absent-unset")
+		}
+	}
+}
+
+// VerifC01_Foreach: typed iteration over struct S{1: i32 a; 3: i32 c; 5: string s} whose bytes may carry an
+// unknown field (id 2 or 4, symbolic position by id order) visits every known field once, in wire order,
+// with the reference element.
+func VerifC01_Foreach() {
+	desc := thrift.VerifStruct("S", thrift.Options{},
+		thrift.VField{ID: 1, Name: "a", Type: thrift.VerifBasic(thrift.I32), Req: 2},
+		thrift.VField{ID: 3, Name: "c", Type: thrift.VerifBasic(thrift.I32), Req: 2},
+		thrift.VField{ID: 5, Name: "s", Type: thrift.VerifBasic(thrift.STRING), Req: 2})
+	var b []byte
+	var wantIDs []int
+	for id := 1; id <= 5; id++ {
+		if !vrt.Bool() {
+			continue
+		}
+		switch id {
+		case 1, 3:
+			b = vrt.PutBE32(vrt.PutField(b, vrt.TI32, id), int(int32(vrt.U32())))
+			wantIDs = append(wantIDs, id)
+		case 5:
+			b = vrt.PutString(vrt.PutField(b, vrt.TSTRING, id), []byte{vrt.U8()})
+			wantIDs = append(wantIDs, id)
+		default: // unknown to the descriptor
+			b = vrt.PutBE64(vrt.PutField(b, vrt.TI64, id), int64(vrt.U64()))
+		}
+	}
+	b = append(b, 0)
+	kids, ok := vrt.TChildren(b, vrt.TSTRUCT, 3)
+	vrt.Assume(ok)
+	v := NewValue(desc, b)
+	opts := &Options{IterateStructByName: vrt.Bool()}
+	var gotIDs []int
+	var gotNodes []Value
+	err := v.Foreach(func(p Path, n Value) bool {
+		id := 0
+		if p.Type() == PathFieldName {
+			switch p.Str() {
+			case "a":
+				id = 1
+			case "c":
+				id = 3
+			case "s":
+				id = 5
+			}
+		} else {
+			id = int(p.Id())
+		}
+		gotIDs = append(gotIDs, id)
+		gotNodes = append(gotNodes, n)
+		return true
+	}, opts)
+	vrt.Assert(err == nil, "C01.foreach.noerror")
+	if err != nil {
+		return
+	}
+	vrt.Reach("iterated")
+	vrt.Assert(len(gotIDs) == len(wantIDs), "C01.foreach.visits-every-known-field")
+	if len(gotIDs) != len(wantIDs) {
+		return
+	}
+	for i := range wantIDs {
+		vrt.Assert(gotIDs[i] == wantIDs[i], "C01.foreach.order")
+		for _, k := range kids {
+			if k.ID == wantIDs[i] {
+				verifFound(gotNodes[i].Node, b, k, "C01.foreach.element")
+			}
+		}
+	}
+}
